@@ -74,7 +74,8 @@ Check(m, e) ==
          ELSE IF ~((m.mustLive \ {x \in Items : m.mk[x]}) \subseteq Present(m, e)) THEN "picked_up_at_next_callback"
          ELSE IF ~(Present(m, e) \subseteq {x \in Items : m.st[x] \in {"queued", "live"}}) THEN "phantom_resource"
          ELSE IF ~({x \in Items : m.st[x] = "live" /\ ~m.mk[x]} \subseteq Present(m, e)) THEN "removed_without_cause"
-         ELSE IF m.racy /\ m.nfreed # Cardinality(Gone(m, e)) THEN "free_count"
+         \* (how many removals the replay saw pass the sto.removed yield point is a fact about the replay, not about the library:
+         \*  a scan in another order than the model's meets the marks at other moments - no clause)
          ELSE IF ~Obs(e.len, EndCount(m, e)) THEN "count_exact"
          ELSE IF (e.resolves \cap ({x \in Items : m.st[x] = "gone"} \cup Gone(m, e))) # {} THEN "no_stale_id"
          ELSE ""
